@@ -941,7 +941,9 @@ func genHistory(rt *rapid.T, st *ref.StructT, v *ref.StructV, zeroReq bool, fres
 			return nil, nil, false, sk
 		}
 		m := fmode{black: step.Black, zeroReq: zeroReq}
-		if k < n-1 && rapid.SampledFrom([]bool{false, false, false, false, true}).Draw(rt, "readstep") {
+		// (objects that hold a union anywhere are not re-read: how a union member read into a used
+		// object merges with the member it already holds is not something the reference models)
+		if k < n-1 && !reachesUnion(top, map[*ref.StructT]bool{}) && rapid.SampledFrom([]bool{false, false, false, false, true}).Draw(rt, "readstep") {
 			// read the complete encoding of v into the same object; later writes see the merged content
 			nv, ok := complete(top, mergeRead(top, cur, v, root, m, fresh), 16)
 			if ok && writable(top, canon(top, nv), true) {
@@ -1354,4 +1356,28 @@ func TestReplay(t *testing.T) {
 			return judge(c).err
 		},
 	})
+}
+
+// reachesUnion reports whether a value of t can contain a union.
+func reachesUnion(t *ref.Type, seen map[*ref.StructT]bool) bool {
+	switch t.Kind {
+	case ref.List, ref.Set:
+		return reachesUnion(t.Elem, seen)
+	case ref.Map:
+		return reachesUnion(t.Key, seen) || reachesUnion(t.Elem, seen)
+	case ref.Struct:
+		if t.Struct.Kind == "union" {
+			return true
+		}
+		if seen[t.Struct] {
+			return false
+		}
+		seen[t.Struct] = true
+		for _, f := range t.Struct.Fields {
+			if reachesUnion(f.Type, seen) {
+				return true
+			}
+		}
+	}
+	return false
 }
